@@ -41,6 +41,10 @@ def table : List (Bool × List (String × String × String)) := [
   (false, [("post", "'", "RATE"), ("top", "(", ""), ("top", "[", ""), ("top", ".", "")])
 ]
 
+/-- the comma of an expression list (`a = 1, b = 2, c = 3` in an update, the clauses of a `for`) is the operator of lowest
+precedence and groups to the left like every other binary level: `(a = 1, b = 2), c = 3` -/
+def commaLeftAssoc : Bool := true
+
 /-- token of an operator text according to the (generated) lexer tables -/
 def tokOfText (s : String) : Nat :=
   match literals.find? (fun x => x.1 == s) with
